@@ -34,9 +34,19 @@ ASSUMPTION: 64-bit platform (GOARCH with 64-bit int, e.g. amd64/arm64).  Semanti
 
 // translateLoopFuncs translates the named functions of p, in the given order (callees first),
 // preceded by the package variables they read.
+//
+// A name with the suffix "!disjoint" is translated under the ASSUMPTION that the arrays of its slice / array
+// parameters do not overlap: then a parameter written by index is accepted as an output buffer even when another
+// parameter has the same element type.  The assumption is stated in the generated doc comment; whoever asks for it
+// has to justify it (gen.go: checkFreshDst does so at the call sites).
 func translateLoopFuncs(p *pkg, names ...string) string {
-	set := &loopSet{p: p, tp: typeCheck(p), done: map[string]bool{}, flowFns: map[string]bool{}, all: map[string]bool{}, varText: map[*types.Var]string{}}
-	for _, n := range names {
+	set := &loopSet{p: p, tp: typeCheck(p), done: map[string]bool{}, flowFns: map[string]bool{}, all: map[string]bool{},
+		varText: map[*types.Var]string{}, disjoint: map[string]bool{}}
+	for i, n := range names {
+		if m := strings.TrimSuffix(n, "!disjoint"); m != n {
+			names[i], n = m, m
+			set.disjoint[n] = true
+		}
 		set.all[n] = true
 	}
 	var fns []string
@@ -57,7 +67,7 @@ func translateLoopFuncs(p *pkg, names ...string) string {
 func (s *loopSet) translate(name string) string {
 	fd := s.p.funcDecl(name)
 	t := &loopTr{set: s, p: s.p, info: s.tp.info, fd: fd, vars: map[types.Object]string{}, params: map[types.Object]bool{},
-		safe: map[*ast.IndexExpr]bool{}, pairBuf: map[types.Object]bool{}}
+		safe: map[*ast.IndexExpr]bool{}, pairBuf: map[types.Object]bool{}, synthCond: map[*ast.IfStmt]string{}}
 	if fd.Recv != nil || fd.Type.TypeParams != nil || fd.Body == nil {
 		t.fail(fd, "methods, generic functions and bodyless functions are not supported")
 	}
@@ -67,6 +77,7 @@ func (s *loopSet) translate(name string) string {
 		}
 		return true
 	})
+	t.errAt = t.buildsErrAt()
 	t.collectFacts()
 	// variables: unique, usable names
 	byName := map[string][]types.Object{}
@@ -94,7 +105,7 @@ func (s *loopSet) translate(name string) string {
 				t.fail(id, "two variables called %s in nested scopes (shadowing is not supported)", id.Name)
 			}
 		}
-		if leanReserved[id.Name] || strings.HasPrefix(id.Name, "st_") || strings.HasPrefix(id.Name, "var_") || s.all[id.Name] || id.Name == "nil" {
+		if leanReserved[id.Name] || strings.HasPrefix(id.Name, "st_") || strings.HasPrefix(id.Name, "sw_") || strings.HasPrefix(id.Name, "var_") || s.all[id.Name] || id.Name == "nil" {
 			t.fail(id, "variable name %s clashes with a name used by the generated Lean text", id.Name)
 		}
 		byName[id.Name] = append(byName[id.Name], o)
@@ -159,6 +170,9 @@ func (s *loopSet) translate(name string) string {
 		doc += "; the function writes into the array of " + strings.Join(ns, ", ") + ": the last component" +
 			map[bool]string{true: "s", false: ""}[len(ns) > 1] + " of the result is the content of that array (the whole slice that was passed) on return"
 	}
+	if len(t.mayOverlap) > 0 {
+		doc += "; ASSUMPTION (not checked here): the array of " + strings.Join(t.mayOverlap, ", ") + " does not overlap the arrays of the other parameters"
+	}
 	if t.flowFn {
 		doc += "; none = run-time panic"
 		s.flowFns[name] = true
@@ -191,7 +205,19 @@ func (b binding) leanType() string {
 
 // blockMode: flow = the statement list is built as a Go.Flow (return and panics allowed anywhere);
 // otherwise tail = the list is in tail position of a function built as a plain value, so `return` is allowed.
-type blockMode struct{ flow, tail bool }
+// brk renders what an unlabeled `break` at the end of the statement list does (leave the enclosing loop); nil where
+// `break` is not supported, noBrk then says why.
+type blockMode struct {
+	flow, tail bool
+	brk        func(ind string) string
+	noBrk      string
+}
+
+// noBreak is m with `break` rejected for the given reason.
+func (m blockMode) noBreak(why string) blockMode {
+	m.brk, m.noBrk = nil, why
+	return m
+}
 
 func (t *loopTr) freshName() string {
 	t.fresh++
@@ -319,6 +345,23 @@ func (t *loopTr) block(list []ast.Stmt, ind string, m blockMode, k func(ind stri
 			out = t.guards(s, ind, m) + out
 		}
 		return out
+	case *ast.BranchStmt:
+		if s.Tok != token.BREAK || s.Label != nil {
+			break
+		}
+		if len(list) > 1 {
+			t.fail(list[1], "statement after break")
+		}
+		if m.brk == nil {
+			why := m.noBrk
+			if why == "" {
+				why = "it is supported as the last statement of the body of a loop or of `if c { …; break }` blocks in tail position of that body"
+			}
+			t.fail(s, "break: %s", why)
+		}
+		return m.brk(ind)
+	case *ast.SwitchStmt:
+		return t.switchStmt(s, list[1:], ind, m, k)
 	case *ast.IfStmt:
 		return t.ifStmt(s, ind, m, rest)
 	case *ast.RangeStmt:
@@ -406,7 +449,7 @@ func (t *loopTr) simple(st ast.Stmt) []binding {
 					val = fmt.Sprintf("0#%d", k.width())
 				case k == kBool:
 					val = "false"
-				case k == kErr:
+				case k == kErr, k == kErrAt:
 					val = "none"
 				default:
 					val = "([] : " + k.lean() + ")"
@@ -513,13 +556,35 @@ func endsWithReturn(b *ast.BlockStmt) bool {
 	return ok
 }
 
+// endsWithJump: the block ends with a return or an unlabeled break (its end is not reached).
+func endsWithJump(b *ast.BlockStmt) bool {
+	if endsWithReturn(b) {
+		return true
+	}
+	if n := len(b.List); n > 0 {
+		br, ok := b.List[n-1].(*ast.BranchStmt)
+		return ok && br.Tok == token.BREAK && br.Label == nil
+	}
+	return false
+}
+
 func (t *loopTr) ifStmt(s *ast.IfStmt, ind string, m blockMode, rest func(string) string) string {
 	if s.Init != nil {
 		t.fail(s, "if with an init statement is not supported")
 	}
-	c, ck := t.expr(s.Cond)
-	if ck != kBool {
-		t.fail(s.Cond, "condition is not a bool")
+	c, fromSwitch := t.synthCond[s]
+	if c == "" {
+		var ck lkind
+		c, ck = t.expr(s.Cond)
+		if ck != kBool {
+			t.fail(s.Cond, "condition is not a bool")
+		}
+	}
+	// bm: the mode of the branches.  A `break` in a switch clause would leave the switch; in a conditional whose
+	// end is reached (below) it is not in tail position of the loop body.
+	bm := m
+	if fromSwitch {
+		bm = m.noBreak("inside a switch clause it leaves the switch, not the loop; there it is only supported as the last statement of the clause (where it does nothing)")
 	}
 	pre := t.guards(s, ind, m)
 	unreachable := func(string) string {
@@ -533,25 +598,28 @@ func (t *loopTr) ifStmt(s *ast.IfStmt, ind string, m blockMode, rest func(string
 		if !endsWithReturn(s.Body) {
 			t.fail(s, "a conditional containing return must end with it")
 		}
-		th := t.block(s.Body.List, ind+"  ", m, unreachable)
+		th := t.block(s.Body.List, ind+"  ", bm, unreachable)
 		return fmt.Sprintf("%sif %s then\n%s\n%selse\n%s", ind, c, th, ind, rest(ind+"  "))
 	}
 	if m.flow && (t.needsFlow(s.Body, true) || (s.Else != nil && t.needsFlow(s.Else, true))) {
-		if s.Else == nil && endsWithReturn(s.Body) {
-			// `if c { …; return e }`: what follows is the else branch
-			th := t.block(s.Body.List, ind+"  ", m, unreachable)
+		if s.Else == nil && endsWithJump(s.Body) {
+			// `if c { …; return e }` / `if c { …; break }`: what follows is the else branch
+			th := t.block(s.Body.List, ind+"  ", bm, unreachable)
 			return fmt.Sprintf("%s%sif %s then\n%s\n%selse\n%s", pre, ind, c, th, ind, rest(ind))
+		}
+		if !fromSwitch {
+			bm = m.noBreak("inside a conditional whose end can be reached it is not supported (only `if c { …; break }` blocks in tail position of the loop body)")
 		}
 		objs := t.stateOf(s, s)
 		tup, ty := t.tuple(objs)
 		ret := func(ind string) string { return ind + "Go.Flow.run " + tup }
-		th := t.block(s.Body.List, ind+"    ", m, ret)
+		th := t.block(s.Body.List, ind+"    ", bm, ret)
 		el := ret(ind + "    ")
 		switch e := s.Else.(type) {
 		case *ast.BlockStmt:
-			el = t.block(e.List, ind+"    ", m, ret)
+			el = t.block(e.List, ind+"    ", bm, ret)
 		case *ast.IfStmt:
-			el = t.block([]ast.Stmt{e}, ind+"    ", m, ret)
+			el = t.block([]ast.Stmt{e}, ind+"    ", bm, ret)
 		}
 		st := t.stateName(objs)
 		return fmt.Sprintf("%s%sGo.Flow.bind (if %s then\n%s\n%s  else\n%s) (fun (%s : %s) =>\n%s%s)",
@@ -667,9 +735,15 @@ func (t *loopTr) loopOver(s ast.Node, body *ast.BlockStmt, list, binder, ind str
 	in := ind + "    "
 	if m.flow && t.needsFlow(body, true) {
 		st := t.stateName(objs)
-		b := t.unpack(in, st, objs) + t.block(body.List, in, m, func(ind string) string { return ind + "Go.Flow.run " + tup })
-		return fmt.Sprintf("%s%sGo.Flow.bind (Go.forIn %s %s (fun (%s : %s) %s =>\n%s)) (fun (%s : %s) =>\n%s%s)",
-			pre, ind, list, tup, st, ty, binder, b, st, ty, t.unpack(ind, st, objs), rest(ind))
+		fn, bm, end := "Go.forIn", m.noBreak(""), "Go.Flow.run "+tup
+		if breaksOut(body) {
+			// the body yields (true, state) after `break`, (false, state) at its normal end
+			fn, end = "Go.forInB", "Go.Flow.run (false, "+tup+")"
+			bm.brk = func(ind string) string { return ind + "Go.Flow.run (true, " + tup + ")" }
+		}
+		b := t.unpack(in, st, objs) + t.block(body.List, in, bm, func(ind string) string { return ind + end })
+		return fmt.Sprintf("%s%sGo.Flow.bind (%s %s %s (fun (%s : %s) %s =>\n%s)) (fun (%s : %s) =>\n%s%s)",
+			pre, ind, fn, list, tup, st, ty, binder, b, st, ty, t.unpack(ind, st, objs), rest(ind))
 	}
 	if len(objs) == 0 {
 		t.fail(s, "loop without effect: its body assigns no variable declared outside it")
